@@ -75,6 +75,7 @@ type c09Case struct {
 	IncFreq  int     `json:"incoming_frequency"`
 	IncClass string  `json:"incoming_class"`
 	RealGets bool    `json:"frequencies_via_gets"`
+	KeyZero  bool    `json:"key_zero,omitempty"` // resident 0 is the key 0 (primary hash 0)
 	Detail   any     `json:"decision,omitempty"`
 }
 
@@ -153,6 +154,7 @@ func runC09(c *Ctx) {
 			cs.IncCost = cs.MaxCost
 		}
 		cs.RealGets = i%5 == 4
+		cs.KeyZero = (i/3)%2 == 1
 		cs.Name = fmt.Sprintf("c09-pop%d-%s", npop, cs.IncClass)
 		c.J.Case(cs)
 		c09One(c, rng, cs)
@@ -166,7 +168,7 @@ func c09One(c *Ctx, rng *lab.RNG, cs c09Case) {
 	r := c.R
 	r.Eval(1)
 	npop := len(cs.Costs)
-	cfg := lab.CacheCfg{NumCounters: 2000, MaxCost: cs.MaxCost, BufferItems: 1, IgnoreInternalCost: true, KeyKind: "uint64", NKeys: npop + 1}
+	cfg := lab.CacheCfg{NumCounters: 2000, MaxCost: cs.MaxCost, BufferItems: 1, IgnoreInternalCost: true, KeyKind: "uint64", NKeys: npop + 1, KeyZero: cs.KeyZero}
 	l, err := lab.NewLab(cfg)
 	if err != nil {
 		r.Inconc(1)
